@@ -259,6 +259,13 @@ fn byte_keys_check(a: &Args, ctx: &mut Ctx, rng: &mut Rng) -> Result<(), String>
             pool.push(base[..cut].to_vec());
         }
     }
+    // distinct keys with the same full 64-bit placement hash: the same entry only if the bytes are equal
+    let fam = crate::decoder::colliding_keys(rng, 4);
+    if fam.len() >= 2 && fam.iter().all(|k| crate::decoder::place_hash(k) == crate::decoder::place_hash(&fam[0])) {
+        ctx.count("hash_collision_families", 1);
+        ctx.count("hash_colliding_keys", fam.len() as u64);
+    }
+    pool.extend(fam);
     pool.sort();
     pool.dedup();
     for n in [1u64, 8, 1024] {
@@ -364,6 +371,48 @@ pub fn run(a: &Args) -> Ctx {
     for (nm, r) in [("u64", big_u64(a, &mut ctx, &mut rng)), ("i64", big_i64(a, &mut ctx, &mut rng)), ("vu64", big_vu64(a, &mut ctx, &mut rng))] {
         if let Err(m) = r {
             fail(&mut ctx, format!("[{nm}] {m}"));
+            return ctx;
+        }
+    }
+    // one chain of several thousand sequential integers (1-bucket table): every one of them is still found
+    if a.shard < 3 {
+        let r = (|| -> Result<(), String> {
+            let dir = a.scratch.join("c10chain");
+            let _ = std::fs::remove_dir_all(&dir);
+            let db = abyssiniandb::open_file(&dir).map_err(|e| e.to_string())?;
+            let n = a.get_u64("chain_entries", 5200);
+            macro_rules! chain {
+                ($m:expr, $conv:expr) => {{
+                    let mut m = $m;
+                    for x in 0..n {
+                        m.put(&$conv(x), &x.to_le_bytes()[..(x % 5) as usize]).map_err(|e| e.to_string())?;
+                    }
+                    if m.len().map_err(|e| e.to_string())? != n {
+                        return Err(format!("a chain of {n} sequential integers: len() is {}", m.len().unwrap()));
+                    }
+                    for x in (0..n).step_by(7).chain([0, 1, 2, n - 1]) {
+                        let want = x.to_le_bytes()[..(x % 5) as usize].to_vec();
+                        if m.get(&$conv(x)).map_err(|e| e.to_string())? != Some(want) {
+                            return Err(format!("a chain of {n} sequential integers in one bucket: get({x}) does not find the entry"));
+                        }
+                    }
+                    if m.iter().count() as u64 != n {
+                        return Err(format!("a chain of {n} sequential integers: iteration yields another number of items"));
+                    }
+                }};
+            }
+            match a.shard {
+                0 => chain!(db.db_map_u64_with_params("c", Cfg::small(1).params()).map_err(|e| e.to_string())?, |x: u64| x),
+                1 => chain!(db.db_map_i64_with_params("c", Cfg::small(1).params()).map_err(|e| e.to_string())?, |x: u64| x as i64 - 2600),
+                _ => chain!(db.db_map_vu64_with_params("c", Cfg::small(1).params()).map_err(|e| e.to_string())?, |x: u64| x * 31),
+            }
+            drop(db);
+            let _ = std::fs::remove_dir_all(&dir);
+            Ok(())
+        })();
+        ctx.count("typed_long_chains", 1);
+        if let Err(m) = r {
+            fail(&mut ctx, m);
             return ctx;
         }
     }
